@@ -1,7 +1,7 @@
 """C18 Source positions survive preprocessing.
 
 Enumerated: every *forest of line items* with exactly n nodes, for the bounds listed in run() and recorded in the evidence
-(`bounds_completed`).  Four families of forests / files:
+(`bounds_completed`).  Six families of forests / files (MAIN, U, M, Z, L, R):
 
 MAIN  quick: n <= 3 over the full alphabet in five encodings, n = 4 in LF; diagnostics and execution for n <= 2, .loc for n <= 3.
   thorough: n <= 4 over the full alphabet, n = 5 over MID, n = 6 over REDUCED, a sixth encoding, diagnostics, .loc and execution for n <= 3.
@@ -40,6 +40,28 @@ Z  SIZE: long files (main file, or a header included from a three-line main file
   length.  d in {-1, 0, +1} (UTF-8: the 2nd byte at -3..+1 = every cut of the character), encodings LF and CRLF (thorough: + BOM, which
   counts in the offsets).  E for both layouts; D (lex and parse errors at the probes after the multiples of 512, 1024, 4096, 8192,
   65536, 131072), S and X for the comb layout.
+
+L  OPERANDS OF #line: item d<n><f> = `#line <number> [<file>]` followed by a probe line, number operand n in {L literal, S object-like macro
+  defined on the line before in the same file, H object-like macro defined in an included header (vpcfg.h, included first), D object-like
+  macro defined on the command line (-D), B `__LINE__`}, file operand f in {- none, L literal, S, H, D as before, B `__FILE__`}: 5 x 6 = 30
+  spellings; gLL = `# N "f"` (the GNU form takes literal operands only: neither gcc nor chibicc macro-replace `# <identifier>`).  Alphabet
+  LALPHA = code, sp2, the 30 spellings, gLL, + #include; only forests with at least one non-literal spelling are generated.  Every file set
+  is rendered twice: as enumerated and as its LITERAL TWIN, in which each such directive is re-spelled `#line N ["f"]` with the values the model
+  gives its operands (everything else - #define lines, command line - unchanged).  Judged per probe: (1) against the model as in MAIN (the N+1
+  convention of this tree shows up as the listed `after-#line ... expected+1` findings; not for the line number after `#line __LINE__`, where N,
+  N+1 and "directive ignored" coincide), (2) chibicc on the rendering == chibicc on the twin, for __LINE__ and __FILE__ (not for the line after
+  `#line __LINE__` written while another #line is in force: its operand inherits the N+1 of that one) - judged only where gcc -E gives the model's
+  position for BOTH renderings.   quick: E n <= 2 x LALPHA x {LF, CRLF+BOM}, n = 3 x LRED (14 items); X n = 1 x LALPHA, n = 2 x LRED; S n <= 2 x LRED;
+  D n = 1.  thorough: E n <= 2 x 4 encodings, n = 3 x LALPHA, n = 4 x LRED4 (8 items); X, S n <= 2 x LALPHA; D n <= 2 x LRED.
+
+R  REPEATED INCLUSION: inner item rep:<pattern>:<guard>[header]: a header whose forest contains at least one #line item is included
+  len(pattern) = 2 or 3 times - d: by an #include line of the file itself, w: through a wrapper header of its own (12 patterns) - each inclusion
+  followed by a probe line in the includer; guard in {none, #ifndef/#define/#endif, #pragma once} (guards x {dd, dw, wd, ww}): 20 modes.  The #line
+  items are at every position of the header (alphabet RALPHA = code, sp2, dL-, dLL, gLL, dH-, dBL; rep and #include nest to depth 2), so there are
+  probes before and after the directive in every inclusion.  Judged per probe: (1) and (2) as in L, (3) every later occurrence of a probe
+  reports the same __LINE__ and __FILE__ as its first occurrence (where gcc -E gives the model's position for both occurrences).
+  quick: E n <= 2 x 20 modes x {LF, CRLF+BOM}, n = 3 x 8 modes, n = 4 x RALPHA3 x 3 modes; X n <= 2, n = 3 x 3 modes; S, D n <= 2.  thorough: E n <= 3 x 20 modes,
+  n = 4 x RALPHA x 6 modes; X, S n <= 3; D n <= 2.
 
 Observables (what each probe must show):
   E  `vpK(__LINE__, __FILE__);` read back from `-cc1 -E` output by re-lexing (models/pplex.py)
@@ -80,6 +102,33 @@ NLINES = {"code": 1, "blank": 1, "slc": 1, "slcs": 2, "bc1": 1, "bc2": 2, "bc3":
           "line": 1, "linef": 1, "gnu": 1,
           "ui": 1, "us": 1, "uk": 1, "uc": 1, "ub": 1, "spa": 2, "spb": 2, "spu": 3, "spw": 3,
           "mf1": 2, "mf2": 3, "mf3": 4, "mf4": 5, "mfc3": 5}
+# family L: spelling of the operands of #line x repeated inclusion of headers that contain #line
+LNUMSRC = {"L": "literal", "S": "object-like macro defined earlier in the same file", "H": "object-like macro defined in an included header",
+           "D": "object-like macro defined on the command line (-D)", "B": "__LINE__"}
+LFILESRC = {"-": "no file operand", "L": "literal", "S": "object-like macro defined earlier in the same file",
+            "H": "object-like macro defined in an included header", "D": "object-like macro defined on the command line (-D)", "B": "__FILE__"}
+LITEMS = {"d%s%s" % (a, b): ("line", a, b) for a in "LSHDB" for b in "-LSHDB"}     # `#line <number> [<file>]` followed by a probe line
+LITEMS["gLL"] = ("gnu", "L", "L")       # `# N "f"`: literal operands only (neither gcc nor chibicc macro-replace `# <identifier>`; C11: non-directive)
+LLITERAL = ("dL-", "dLL", "gLL")
+LALPHA = ["code", "sp2"] + sorted(LITEMS)
+LRED = ["code", "sp2", "dL-", "dLL", "dS-", "dH-", "dD-", "dB-", "dLS", "dLH", "dLD", "dLB", "dHH", "dBL"]
+RALPHA = ["code", "sp2", "dL-", "dLL", "gLL", "dH-", "dBL"]          # content of repeatedly included headers and their surroundings
+RALPHA3 = ["code", "dL-", "dLL"]
+LRED4 = ["code", "dL-", "dH-", "dD-", "dB-", "dLH", "dBL", "dLB"]
+RPATTERNS = ["dd", "dw", "wd", "ww", "ddd", "ddw", "dwd", "wdd", "dww", "wdw", "wwd", "www"]   # d: #include in the file itself, w: through a wrapper header
+RMODES = tuple([(p_, "none") for p_ in RPATTERNS] + [(p_, g_) for g_ in ("guard", "once") for p_ in ("dd", "dw", "wd", "ww")])
+RMODES_RED = (("dd", "none"), ("dw", "none"), ("wd", "none"), ("ddd", "none"), ("dd", "guard"), ("dd", "once"))
+RMODES_Q3 = (("dd", "none"), ("dw", "none"), ("wd", "none"), ("ww", "none"), ("ddd", "none"), ("dwd", "none"), ("dd", "guard"), ("dw", "once"))
+RMODES_Q4 = (("dd", "none"), ("wd", "none"), ("ddd", "none"))
+LKMAX = 6                       # #line directives per file set
+L_HDR_MAX_LINES = 8
+LCFG_H = "vpcfg.h"
+LCFG_LINES = [x for k in range(1, LKMAX + 1) for x in ("#define VPHN%d %d" % (k, 100 * k + 11), '#define VPHF%d "vph%d.c"' % (k, k))]
+LDEFS = [x for k in range(1, LKMAX + 1) for x in ("-DVPDN%d=%d" % (k, 100 * k + 11), '-DVPDF%d="vpd%d.c"' % (k, k))]
+LDEFS_SH = " ".join("'%s'" % x for x in LDEFS)
+LPREDEF = {x[2:].split("=", 1)[0]: x[2:].split("=", 1)[1] for x in LDEFS}
+for _k, (_f, _a, _b) in LITEMS.items():
+    NLINES[_k] = 2 + (_a == "S") + (_b == "S")
 HDR_MAX_LINES = 3
 MAXPROBE = 48
 ENCS = {"lf": (b"\n", b""), "crlf": (b"\r\n", b""), "lf+bom": (b"\n", M.BOM), "crlf+bom": (b"\r\n", M.BOM),
@@ -147,12 +196,64 @@ def forests(n, depth, maxlines, alphabet, argalpha=None, argdepth=0, hdrmax=HDR_
     return tuple(res)
 
 
+def has_item(forest, pred):
+    for it in forest:
+        if isinstance(it, str):
+            if pred(it):
+                return True
+        elif pred(it) or has_item(it[1], pred):
+            return True
+    return False
+
+
+def is_family_l(forest):
+    return has_item(forest, lambda it: it in LITEMS if isinstance(it, str) else it[0] == "rep")
+
+
+def has_macro_directive(forest):
+    return has_item(forest, lambda it: isinstance(it, str) and it in LITEMS and it not in LLITERAL)
+
+
+def has_rep(forest):
+    return has_item(forest, lambda it: not isinstance(it, str) and it[0] == "rep")
+
+
+@functools.lru_cache(None)
+def lforests(n, depth, maxlines, alphabet, modes):
+    """Family L: all forests with exactly n nodes over `alphabet`, #include nodes, and - for every mode (pattern, guard) in `modes` - nodes
+    rep[header]: a header that contains at least one #line directive, included len(pattern) times (d: by an #include line of the file itself,
+    w: through a wrapper header of its own), each inclusion followed by a probe line.  inc and rep count 1 + the nodes of the header."""
+    if n == 0:
+        return ((),)
+    res = []
+    for leaf in alphabet:
+        ln = NLINES[leaf]
+        if 0 <= maxlines < ln:
+            continue
+        for rest in lforests(n - 1, depth, maxlines - ln if maxlines >= 0 else -1, alphabet, modes):
+            res.append((leaf,) + rest)
+    if depth > 0 and (maxlines < 0 or maxlines >= 1):
+        for k in range(0, n):
+            for hdr in lforests(k, depth - 1, L_HDR_MAX_LINES, alphabet, modes):
+                for rest in lforests(n - 1 - k, depth, maxlines - 1 if maxlines >= 0 else -1, alphabet, modes):
+                    res.append((("inc", hdr),) + rest)
+                if not has_item(hdr, lambda it: isinstance(it, str) and it in LITEMS):
+                    continue
+                for mode in modes:
+                    ln = 2 * len(mode[0])
+                    if 0 <= maxlines < ln:
+                        continue
+                    for rest in lforests(n - 1 - k, depth, maxlines - ln if maxlines >= 0 else -1, alphabet, modes):
+                        res.append((("rep", hdr, mode),) + rest)
+    return tuple(res)
+
+
 def fstr(forest, var=None):
     if forest and forest[0] == "Z":
         return "long file: %s layout, feature %s at k*B%+d, %s, in the %s%s" % (
             forest[1], forest[2], forest[3], forest[4], "main file" if forest[5] == "main" else "included header",
             "" if forest[1] == "comb" else ", B=%d k=%d" % (forest[6], forest[7]))
-    t = " ".join(x if isinstance(x, str) else "%s[%s]" % (x[0], fstr(x[1])) for x in forest)
+    t = " ".join(x if isinstance(x, str) else "%s[%s]" % (x[0] if x[0] != "rep" else "rep:%s:%s" % x[2], fstr(x[1])) for x in forest)
     if var:
         t += " {continuation column %d, UCN %s}" % (var[0], UCNS[var[1]])
     return t
@@ -174,8 +275,9 @@ class Render:
         self.col, self.ucn = var if var else (0, "u2")
         self.files = {}
         self.meta = {}
-        self.npid = self.ndir = self.nhdr = self.nmac = self.nvar = 0
+        self.npid = self.ndir = self.nhdr = self.nmac = self.nvar = self.nrep = self.nwrap = 0
         self.needq = False
+        self.ldirs = []         # family L: the #line directives written (the list of lines they are in, index, operand sources, ordinal)
 
     def parts(self, kind, tail=False, **flags):
         """-> ("vpK(", first argument, ", second argument);")"""
@@ -193,8 +295,8 @@ class Render:
     def P(self, kind, tail=False, **flags):
         return "".join(self.parts(kind, tail, **flags))
 
-    def file(self, name, forest):
-        lines = []
+    def file(self, name, forest, prefix=()):
+        lines = list(prefix)
         self.files[name] = lines
         self.emit(forest, lines, None)
 
@@ -210,6 +312,42 @@ class Render:
                 h = "h%d.h" % self.nhdr
                 lines.append('#include "%s"' % h)
                 self.file(h, it[1])
+            elif not isinstance(it, str) and it[0] == "rep":
+                # a header with #line directives inside, included several times: by the file itself (d) or through a wrapper header (w)
+                pattern, guard = it[2]
+                self.nrep += 1
+                j = self.nrep
+                h = "r%d.h" % j
+                hl = {"none": [], "guard": ["#ifndef VPG%d" % j, "#define VPG%d" % j], "once": ["#pragma once"]}[guard]
+                self.files[h] = hl
+                self.emit(it[1], hl, None)
+                if guard == "guard":
+                    hl.append("#endif")
+                for ch in pattern:
+                    if ch == "d":
+                        lines.append('#include "%s"' % h)
+                    else:
+                        self.nwrap += 1
+                        w = "w%d.h" % self.nwrap
+                        self.files[w] = ['#include "%s"' % h, self.P("code")]
+                        lines.append('#include "%s"' % w)
+                    lines.append(self.P("code"))
+            elif isinstance(it, str) and it in LITEMS:
+                form, ns, fs = LITEMS[it]
+                self.ndir += 1
+                k = self.ndir
+                if k > LKMAX:
+                    raise core.HarnessError("too many #line directives")
+                n = 100 * k + 11
+                if ns == "S":
+                    lines.append("#define VPSN%d %d" % (k, n))
+                if fs == "S":
+                    lines.append('#define VPSF%d "vps%d.c"' % (k, k))
+                num = {"L": str(n), "S": "VPSN%d" % k, "H": "VPHN%d" % k, "D": "VPDN%d" % k, "B": "__LINE__"}[ns]
+                fil = {"-": "", "L": ' "vpf%d.c"' % k, "S": " VPSF%d" % k, "H": " VPHF%d" % k, "D": " VPDF%d" % k, "B": " __FILE__"}[fs]
+                self.ldirs.append(dict(lines=lines, idx=len(lines), ns=ns, fs=fs, k=k))
+                lines.append(("#line " if form == "line" else "# ") + num + fil)
+                lines.append(self.P("code"))
             elif not isinstance(it, str) and it[0] == "arg":
                 self.nmac += 1
                 j = self.nmac
@@ -301,6 +439,7 @@ class Render:
                 raise core.HarnessError("unknown item " + str(it))
 
     family_m = False
+    family_l = False
 
 
 def is_family_m(forest):
@@ -318,7 +457,12 @@ def render(forest, mode, target=0, errkind=None, var=None):
         return zrender(forest, mode, target, errkind)
     r = Render(mode, target, errkind, var)
     r.family_m = is_family_m(forest)
-    r.file("t.c", forest)
+    r.family_l = is_family_l(forest)
+    if r.family_l:          # the header that defines the macros VPHN<k> / VPHF<k> is included first; VPDN<k> / VPDF<k> come from the command line
+        r.files[LCFG_H] = list(LCFG_LINES)
+        r.file("t.c", forest, ['#include "%s"' % LCFG_H])
+    else:
+        r.file("t.c", forest)
     r.files["t.c"].append("}")
     if r.needq:     # one-character spelling of __LINE__ (written in every mode so that the line structure is the same)
         r.files["t.c"].insert(0, "#define Q __LINE__")
@@ -503,13 +647,14 @@ def spec(pairs):
 
 # ---------------------------------------------------------------------------------------------------------------
 # E: __LINE__/__FILE__ in -E output, gcc -E as second oracle
-def gcc_E(wd, entries):
-    """entries: [(key, dirname)] -> {key: {pid: (line, file)}} or None when gcc failed."""
+def gcc_E(wd, entries, defs=(), aslist=False, undef=()):
+    """entries: [(key, dirname)] -> {key: {pid: (line, file)}} or None when gcc failed.
+    aslist: {key: [(pid, line, file)]} in translation order (a probe may occur several times: repeated inclusion)."""
     drv = os.path.join(wd, "vpgcc.c")
     with open(drv, "w") as f:
         for i, (key, d) in enumerate(entries):
-            f.write('VPCASE(%d)\n#include "%s/t.c"\n' % (i, d))
-    st, out, err = core.run_limited(["gcc", "-E", "-P", "-w", "vpgcc.c"], cwd=wd, timeout=600)
+            f.write('VPCASE(%d)\n%s#include "%s/t.c"\n' % (i, "".join("#undef %s\n" % u for u in undef), d))
+    st, out, err = core.run_limited(["gcc", "-E", "-P", "-w"] + list(defs) + ["vpgcc.c"], cwd=wd, timeout=600)
     if st != 0:
         return None
     toks = pplex.lex(out)
@@ -522,6 +667,7 @@ def gcc_E(wd, entries):
         end = bounds[bi + 1][0] if bi + 1 < len(bounds) else len(toks)
         key, d = entries[idx]
         got = {}
+        seq = []
         dup = False
         for pid, line, fn in M.observe_E(toks[pos + 4:end]):
             if fn is not None:
@@ -531,7 +677,8 @@ def gcc_E(wd, entries):
             if pid in got:
                 dup = True
             got[pid] = (line, fn)
-        res[key] = None if dup else got
+            seq.append((pid, line, fn))
+        res[key] = seq if aslist else None if dup else got
     return res
 
 
@@ -652,12 +799,20 @@ def position_class(fn, line, info):
     return "%s:%s" % (fc, lc)
 
 
-def cc1_cmd(extra=""):
+def cc1_cmd(extra="", r=None):
+    if r is not None and r.family_l:
+        extra = (extra + " " + LDEFS_SH).strip()
     return "$CHIBICC -cc1 -DVPFN=vpfn -include %s %s -cc1-input t.c" % (PRE_H_NAME, extra)
 
 
-def compile_args(chibicc, out):
-    return [chibicc, "-cc1", "-DVPFN=vpfn", "-include", PRE_H_NAME, "-cc1-input", "t.c", "-cc1-output", out, "t.c"]
+def compile_args(chibicc, out, r=None, fn="vpfn"):
+    return ([chibicc, "-cc1", "-DVPFN=" + fn] + (LDEFS if r is not None and r.family_l else []) +
+            ["-include", PRE_H_NAME, "-cc1-input", "t.c", "-cc1-output", out, "t.c"])
+
+
+def expected_of(r, files):
+    """the model's probes; family L: with the command-line macros"""
+    return M.expected_ex(files, predef=LPREDEF)[0] if getattr(r, "family_l", False) else M.expected(files)
 
 
 # ---------------------------------------------------------------------------------------------------------------
@@ -677,7 +832,7 @@ def _shard_D(args):
                     r = render(forest, "D", target, kind, var=var)
                     files = encode_all(r, enc)
                     files[PRE_H_NAME] = pre_h(r.maxprobe).encode()
-                    exp = exp0 or dict(M.expected(files))
+                    exp = exp0 or dict(expected_of(r, files))
                     info, meta = exp[target], r.meta[target]
                     if meta["kind"] == "macro-body":
                         # a diagnostic about a token of a replacement list may name the definition or the invocation -> not judged
@@ -689,14 +844,15 @@ def _shard_D(args):
                     shutil.rmtree(wd, ignore_errors=True)
                     write_files(wd, files)
                     if n <= 1:      # second oracle for the model's presumed position: where does gcc report this error?
-                        gs, go, ge = core.run_limited(["gcc", "-fsyntax-only", "-DVPFN=vpfn", "-include", PRE_H_NAME, "t.c"], cwd=wd, timeout=300)
+                        gs, go, ge = core.run_limited(["gcc", "-fsyntax-only", "-DVPFN=vpfn"] + (LDEFS if r.family_l else []) +
+                                                      ["-include", PRE_H_NAME, "t.c"], cwd=wd, timeout=300)
                         gm = re.search(r"^(.+?):(\d+):(?:\d+:)? (?:fatal )?error:", ge, re.M)
                         if gs != "timeout":
                             acc.count("gcc_diagnostics_compared")
                             if not gm or (M.norm(gm.group(1)), int(gm.group(2))) != (M.norm(info["presfile"]), info["pres"]):
                                 acc.count("oracle_disagreements")
                                 continue
-                    st, out, err = core.run_limited(compile_args(chibicc, "t.s"), cwd=wd, timeout=120)
+                    st, out, err = core.run_limited(compile_args(chibicc, "t.s", r), cwd=wd, timeout=120)
                     acc.count("runs_D")
                     if st == "timeout":
                         acc.count("timeouts"); continue
@@ -721,7 +877,7 @@ def _shard_D(args):
                         fs = dict(files); fs.update(sup)
                         acc.deviation("C18|%s|diagnostic:%s|observed=%s" % (construct(meta, info), kind, position_class(fn, line, info)),
                                       "%s is reported at %s:%d" % (where, fn, line), fs,
-                                      cc1_cmd() + " -cc1-output t.s t.c 2> err.txt && exit 0\n"
+                                      cc1_cmd(r=r) + " -cc1-output t.s t.c 2> err.txt && exit 0\n"
                                       "python3 c18_position.py D err.txt %d '%s'" % (target, spec(acceptable(info))))
                     if not re.search(r"vp\d+\s*\(", echo):
                         acc.count("diagnostics_without_source_echo")       # echoing the line is not required, only that an echo is right
@@ -729,7 +885,7 @@ def _shard_D(args):
                         fs = dict(files); fs.update(sup)
                         acc.deviation("C18|%s|diagnostic:%s-echo|observed=offending-token-not-in-echoed-line" % (construct(meta, info), kind),
                                       "%s: echoed text %r does not show the offending token" % (where, echo[:120]), fs,
-                                      cc1_cmd() + " -cc1-output t.s t.c 2> err.txt && exit 0\n"
+                                      cc1_cmd(r=r) + " -cc1-output t.s t.c 2> err.txt && exit 0\n"
                                       "head -4 err.txt | grep -q vperr%d && exit 0; exit 1" % target)
     shutil.rmtree(wd, ignore_errors=True)
     return acc.result()
@@ -756,7 +912,7 @@ def judge_S(acc, asm, r, files, exp, forest, enc, sup, cd):
         where = "[%s] %s: statement vp%d (%s, physical line %d of %s%s)" % (
             forest, enc, pid, meta["kind"], info["phys"], info["file"],
             ", presumed %s:%d" % (info["presfile"], info["pres"]) if info["directive"] else "")
-        rp = cc1_cmd() + " -cc1-output t.s t.c || exit 0\npython3 c18_position.py S t.s %d '%s'" % (pid, spec(acceptable(info, True)))
+        rp = cc1_cmd(r=r) + " -cc1-output t.s t.c || exit 0\npython3 c18_position.py S t.s %d '%s'" % (pid, spec(acceptable(info, True)))
         if fno not in table:
             acc.deviation("C18|.file-table|.loc|observed=file-number-without-.file-entry", "%s: .loc %d %d but no .file %d" % (where, fno, line, fno),
                           fs_all(files, sup), rp)
@@ -779,7 +935,7 @@ def judge_S(acc, asm, r, files, exp, forest, enc, sup, cd):
             acc.deviation("C18|%s|.loc-between-statements|observed=%s" % (construct(meta, info), position_class(fn, line, info)),
                           "[%s] %s: `.loc %d %d` (%s:%d) appears between the instructions of vp%d and vp%d, whose statements are at %s"
                           % (forest, enc, fno, line, fn, line, a, b, sorted(ok)), fs_all(files, sup),
-                          cc1_cmd() + " -cc1-output t.s t.c || exit 0\npython3 c18_position.py R t.s %d-%d '%s'" % (a, b, spec(ok)))
+                          cc1_cmd(r=r) + " -cc1-output t.s t.c || exit 0\npython3 c18_position.py R t.s %d-%d '%s'" % (a, b, spec(ok)))
     return bad
 
 
@@ -821,17 +977,17 @@ def _shard_S(args):
         for enc in (["z"] if r.files is None else encs):
             files = encode_all(r, enc)
             files[PRE_H_NAME] = pre_h(r.maxprobe).encode()
-            exp = M.expected(files)
+            exp = expected_of(r, files)
             shutil.rmtree(wd, ignore_errors=True)
             write_files(wd, files)
-            st, out, err = core.run_limited(compile_args(chibicc, "t.s"), cwd=wd, timeout=120)
+            st, out, err = core.run_limited(compile_args(chibicc, "t.s", r), cwd=wd, timeout=120)
             acc.count("runs_S")
             if st == "timeout":
                 acc.count("timeouts"); continue
             if st != 0:
                 acc.deviation("C18|-S|valid-file-%s" % ("killed" if isinstance(st, int) and st < 0 else "rejected"),
                               "[%s] %s: compilation fails (status %s): %s" % (fstr(forest, var), enc, st, err.strip().splitlines()[:1]),
-                              dict(files), cc1_cmd() + " -cc1-output t.s t.c >/dev/null 2>&1 && exit 0; exit 1")
+                              dict(files), cc1_cmd(r=r) + " -cc1-output t.s t.c >/dev/null 2>&1 && exit 0; exit 1")
                 continue
             judge_S(acc, open(os.path.join(wd, "t.s"), errors="replace").read(), r, files, exp, fstr(forest, var), enc, sup, wd)
     shutil.rmtree(wd, ignore_errors=True)
@@ -944,6 +1100,272 @@ def _shard_X(args):
                               rp + " | grep -q \"observed ('%s'\" && exit 0; exit 1" % M.norm(info["presfile"]))
     shutil.rmtree(wd, ignore_errors=True)
     return acc.result()
+
+
+# ---------------------------------------------------------------------------------------------------------------
+# family L: operands of #line spelled through macros (judged against the literal-operand twin), headers included repeatedly
+def l_positions(exp):
+    return [(p, i["pres"], i["presfile"], i["phys"], i["file"]) for p, i in exp]
+
+
+def twin_lines(r, dirlog):
+    """The literal-operand twin of a rendering: the same files, except that every #line whose operands need macro replacement is
+    re-spelled with the literal number and file name that the model gives the operands.  None: there is no such directive."""
+    first = {}
+    for d in dirlog:
+        first.setdefault((d["file"], d["line"]), d)
+    out = None
+    for d in r.ldirs:
+        if d["ns"] == "L" and d["fs"] in "-L":
+            continue
+        name = [nm for nm, l in r.files.items() if l is d["lines"]][0]
+        e = first.get((name, d["idx"] + 1))
+        if e is None or not e["macro"]:
+            raise core.HarnessError("the model did not execute the directive %r of %s" % (d["lines"][d["idx"]], name))
+        if out is None:
+            out = {nm: list(l) for nm, l in r.files.items()}
+        out[name][d["idx"]] = "#line %d" % e["n"] + ("" if e["name"] is None else ' "%s"' % e["name"])
+    return out
+
+
+L_DRV = ("#include <stdio.h>\n" + "".join("void vp%d(int l, char *f) { printf(\"%d %%d %%s\\n\", l, f); }\n" % (i, i) for i in range(1, MAXPROBE + 1)) +
+         "int vpsink; void vpfn(void); int main(void) { vpfn(); return 0; }\n")
+L_BUILD = ("build() { " + cc1_cmd(LDEFS_SH) + " -cc1-output t.s t.c && as -o t.o t.s && gcc -o drv drv.c t.o && ./drv; }\n")
+
+
+def l_replay(observable, helper):
+    """replay script: observe the rendering in . (-> out.txt) and, if there is one, its literal twin in lit/ (-> lit.txt), then run the helper"""
+    if observable == "E":
+        cmd = "$CHIBICC -cc1 -E %s -cc1-input t.c t.c" % LDEFS_SH
+        return ("%s > out.txt 2>/dev/null || exit 0\nif [ -d lit ]; then (cd lit && %s) > lit.txt 2>/dev/null || exit 0; fi\n%s" % (cmd, cmd, helper))
+    return L_BUILD + "build > out.txt || exit 0\nif [ -d lit ]; then (cd lit && build) > lit.txt || exit 0; fi\n" + helper
+
+
+def l_files(variants, observable, sup):
+    fs = {}
+    for vn, files, exp in variants:
+        for k, v in files.items():
+            fs[k if vn == "mac" else "lit/" + k] = v
+        if observable == "X":
+            pre = "" if vn == "mac" else "lit/"
+            fs[pre + "drv.c"] = L_DRV
+            fs[pre + PRE_H_NAME] = pre_h().encode()
+    fs.update(sup)
+    return fs
+
+
+def judge_L(acc, observable, fs_, enc, r, variants, obs, gcc, sup):
+    """obs / gcc: {"mac": [(pid, line, file)], "lit": ...} in translation order (None: no observation)."""
+    E = observable == "E"
+    ltag, ftag = ("__LINE__", "__FILE__") if E else ("run:__LINE__", "run:__FILE__")
+    where = "in -E output" if E else "at run time"
+    exp = variants[0][2]
+    has_lit = len(variants) > 1
+    o_mac, o_lit = obs.get("mac"), obs.get("lit")
+    if o_mac is None or (has_lit and o_lit is None):
+        return
+    pids = [p for p, i in exp]
+    for vn, o in (("mac", o_mac), ("lit", o_lit)):
+        if o is not None and [x[0] for x in o] != pids:
+            acc.deviation("C18|%s|probe-sequence-differs" % ("-E" if E else "run"), "[%s] %s%s: probes %s %s, expected %s"
+                          % (fs_, enc, "" if vn == "mac" else " (literal twin)", where, [x[0] for x in o], pids),
+                          l_files(variants, observable, sup),
+                          l_replay(observable, "python3 -c \"import c18_position as M,sys; got=[p for p,v in M._observations('%s',open('%s').read())]; "
+                                               "sys.exit(0 if got==%r else 1)\"" % (observable, "out.txt" if vn == "mac" else "lit.txt", pids)))
+            return
+    g_mac, g_lit = gcc.get("mac"), gcc.get("lit")
+    if g_mac is not None and [x[0] for x in g_mac] != pids:
+        g_mac = None
+    if g_lit is not None and [x[0] for x in g_lit] != pids:
+        g_lit = None
+    firstocc, nocc = {}, {}
+    files_all = None
+    for i, (pid, info) in enumerate(exp):
+        meta = r.meta[pid]
+        want = (info["pres"], M.norm(info["presfile"]))
+        occ = nocc[pid] = nocc.get(pid, 0) + 1
+        if g_mac is None or (has_lit and g_lit is None):
+            acc.count("unjudged_no_reference")
+            continue
+        if g_mac[i][1:] != want or (has_lit and g_lit[i][1:] != want):
+            acc.count("oracle_disagreements")
+            continue
+        line, fn = o_mac[i][1], o_mac[i][2]
+        acc.count("judged_" + observable)
+        acc.kinds.add((construct(meta, info), enc) if E else (construct(meta, info), "run", enc))
+        if E and info["pres"] != 1:
+            acc.count("nontrivial_E")
+        if files_all is None:
+            files_all = l_files(variants, observable, sup)
+        here = "[%s] %s: probe vp%d (occurrence %d; %s, physical line %d of %s)" % (fs_, enc, pid, occ, meta["kind"], info["phys"], info["file"])
+        okspec = spec([(info["presfile"], info["pres"])])
+        mode = "E" if E else "X"
+        # (1) against the model (C11 / gcc).  Not for the line number after `#line __LINE__`: N and N+1 (this tree's listed convention)
+        #     cannot be told from "directive ignored" there
+        if info["nbi"]:
+            acc.count("line_after_#line___LINE___not_judged_against_model")
+        elif line != info["pres"]:
+            acc.deviation("C18|%s|%s|observed=%s" % (construct(meta, info), ltag, M.line_class(line, info)),
+                          "%s has __LINE__ == %s %s; C11/gcc: %d" % (here, line, where, info["pres"]), files_all,
+                          l_replay(observable, "python3 c18_position.py %s out.txt %d@%d '%s'" % (mode, pid, occ, okspec)))
+        if fn is None or M.norm(fn) != want[1]:
+            acc.deviation("C18|%s|%s|observed=%s" % (construct(meta, info) + ("" if info["file"] == "t.c" else "+in-header"), ftag, file_class(fn, info)),
+                          "%s has __FILE__ == %r %s; C11/gcc: %r" % (here, fn, where, info["presfile"]), files_all,
+                          l_replay(observable, "python3 c18_position.py %s out.txt %d@%d '%s' | grep -q \"observed ('%s'\" && exit 0; exit 1"
+                                   % (mode, pid, occ, okspec, M.norm(info["presfile"]))))
+        # (2) against the literal twin: a #line has the same effect however its operands are spelled
+        if has_lit and info["dmac"]:
+            acc.count("judged_%s_after_macro_operand_#line" % observable)
+            tl, tf = o_lit[i][1], o_lit[i][2]
+            if info["convdep"]:
+                acc.count("skipped_line_convention_dependent")       # `#line __LINE__` while a #line is in force: the twin's number is the C11 one
+            elif line != tl:
+                cls = "physical-line" if line == info["phys"] else "literal-twin%+d" % (line - tl) if line is not None and tl is not None and abs(line - tl) <= 2 \
+                    else "differs-from-literal-twin"
+                acc.deviation("C18|after-#line-with-macro-operands|%s|observed=%s" % (ltag, cls),
+                              "%s has __LINE__ == %s %s, but %s when the operands of the #line directive before it are written literally"
+                              % (here, line, where, tl), files_all,
+                              l_replay(observable, "python3 c18_position.py T%s out.txt lit.txt %d@%d line" % (mode, pid, occ)))
+            if (None if fn is None else M.norm(fn)) != (None if tf is None else M.norm(tf)):
+                fc = file_class(fn, info)
+                acc.deviation("C18|after-#line-with-macro-operands|%s|observed=%s" % (ftag, fc if fc != "expected-file" else "differs-from-literal-twin"),
+                              "%s has __FILE__ == %r %s, but %r when the operands of the #line directive before it are written literally"
+                              % (here, fn, where, tf), files_all,
+                              l_replay(observable, "python3 c18_position.py T%s out.txt lit.txt %d@%d file" % (mode, pid, occ)))
+        # (3) against the first inclusion: every inclusion of a header reports the same positions
+        if pid in firstocc:
+            j = firstocc[pid]
+            if l_positions([exp[j]]) != l_positions([exp[i]]):
+                acc.count("skipped_inclusions_differ_in_the_model")
+            else:
+                acc.count("judged_%s_repeated_inclusion" % observable)
+                if info["directive"]:
+                    acc.count("judged_%s_repeated_inclusion_after_#line" % observable)
+                if line != o_mac[j][1]:
+                    acc.deviation("C18|repeated-inclusion|%s|observed=differs-from-first-inclusion" % ltag,
+                                  "%s has __LINE__ == %s %s, but %s in the first inclusion of %s" % (here, line, where, o_mac[j][1], info["file"]), files_all,
+                                  l_replay(observable, "python3 c18_position.py Q%s out.txt %d line" % (mode, pid)))
+                if (None if fn is None else M.norm(fn)) != (None if o_mac[j][2] is None else M.norm(o_mac[j][2])):
+                    acc.deviation("C18|repeated-inclusion|%s|observed=differs-from-first-inclusion" % ftag,
+                                  "%s has __FILE__ == %r %s, but %r in the first inclusion of %s" % (here, fn, where, o_mac[j][2], info["file"]), files_all,
+                                  l_replay(observable, "python3 c18_position.py Q%s out.txt %d file" % (mode, pid)))
+        else:
+            firstocc[pid] = i
+
+
+def _shard_L(args):
+    chibicc, wd, sidx, cases, encs, observable = args
+    acc = Acc()
+    sup = support_files()
+    os.makedirs(wd, exist_ok=True)
+    prepared, gcc_entries = [], []
+    for ci, case in enumerate(cases):
+        n, forest, var = unpack(case)
+        r = render(forest, "E")
+        for enc in encs:
+            dname = "c%d_%s_" % (ci, enc.replace("+", ""))
+
+            def enc_files(lines_of, vn):
+                # gcc takes two `#pragma once` files with the same size and content for one file, and all cases of a shard are preprocessed by
+                # one gcc run: a comment makes every such header unique (written before the model reads the bytes)
+                return {name: encode([l + " /* %s%s */" % (dname, vn) if l == "#pragma once" else l for l in lines], enc)
+                        for name, lines in lines_of.items()}
+            files = enc_files(r.files, "mac")
+            exp, dirlog = M.expected_ex(files, predef=LPREDEF)
+            if set(p for p, i in exp) != set(range(1, r.npid + 1)):
+                raise core.HarnessError("model lost a probe: %s" % fstr(forest))
+            variants = [("mac", files, exp)]
+            tl = twin_lines(r, dirlog)
+            if tl is not None:
+                tf = enc_files(tl, "lit")
+                texp = M.expected_ex(tf, predef=LPREDEF)[0]
+                if l_positions(texp) != l_positions(exp):
+                    raise core.HarnessError("the literal twin is not equivalent in the model: %s" % fstr(forest))
+                variants.append(("lit", tf, texp))
+            dirs = {}
+            for vn, fs, e in variants:
+                d = dname + vn
+                if observable == "X":
+                    fs = dict(fs); fs[PRE_H_NAME] = pre_h().encode()
+                write_files(os.path.join(wd, d), fs)
+                gcc_entries.append(((ci, enc, vn), d))
+                dirs[vn] = d
+            prepared.append((ci, enc, r, variants, dirs))
+    gcc = gcc_E(wd, gcc_entries, defs=LDEFS, aslist=True, undef=["VPG%d" % j for j in range(1, LKMAX + 1)]) if gcc_entries else {}
+    if gcc is None:
+        acc.count("ref_rejected", len(gcc_entries))
+        gcc = {}
+    obs = {}
+    units = []
+    for ci, enc, r, variants, dirs in prepared:
+        fs_ = fstr(unpack(cases[ci])[1])
+        for vn, files, exp in variants:
+            cd = os.path.join(wd, dirs[vn])
+            twin = "" if vn == "mac" else " (literal twin)"
+            if observable == "E":
+                st, out, err = core.run_limited([chibicc, "-cc1", "-E"] + LDEFS + ["-cc1-input", "t.c", "t.c"], cwd=cd, timeout=120)
+                acc.count("runs_E")
+            else:
+                fnname = "vpf%d" % len(units)
+                st, out, err = core.run_limited(compile_args(chibicc, "t.s", r, fnname), cwd=cd, timeout=120)
+                acc.count("runs_X")
+            if st == "timeout":
+                acc.count("timeouts"); continue
+            if st != 0:
+                sub = {k: v for k, v in files.items()}
+                if observable == "E":
+                    acc.deviation("C18|-E|valid-file-%s" % ("killed" if isinstance(st, int) and st < 0 else "rejected"),
+                                  "[%s] %s%s: -E fails (status %s): %s" % (fs_, enc, twin, st, err.strip().splitlines()[:1]), sub,
+                                  "$CHIBICC -cc1 -E %s -cc1-input t.c t.c >/dev/null 2>&1 && exit 0; exit 1" % LDEFS_SH)
+                else:
+                    sub[PRE_H_NAME] = pre_h().encode()
+                    acc.deviation("C18|-S|valid-file-%s" % ("killed" if isinstance(st, int) and st < 0 else "rejected"),
+                                  "[%s] %s%s: compilation fails (status %s): %s" % (fs_, enc, twin, st, err.strip().splitlines()[:1]), sub,
+                                  cc1_cmd(r=r) + " -cc1-output t.s t.c >/dev/null 2>&1 && exit 0; exit 1")
+                continue
+            if observable == "E":
+                obs[(ci, enc, vn)] = [(p_, l_, M.norm(f_, cd) if f_ is not None else None) for p_, l_, f_ in M.observe_E(pplex.lex(out))]
+            else:
+                st, out, err = core.run_limited(["as", "-o", os.path.join(wd, fnname + ".o"), "t.s"], cwd=cd, timeout=300)
+                if st != 0:
+                    acc.count("as_failed"); continue
+                units.append((fnname, (ci, enc, vn), cd))
+    if observable == "X" and units:
+        drv = ["#include <stdio.h>", "static int cur;"]
+        drv += ["void vp%d(int l, char *f) { printf(\"%%d %d %%d %%s\\n\", cur, l, f); }" % (i, i) for i in range(1, MAXPROBE + 1)]
+        drv += ["int vpsink;"] + ["void %s(void);" % u[0] for u in units]
+        drv += ["int main(void) {"] + ["  cur = %d; %s();" % (k, u[0]) for k, u in enumerate(units)] + ["  return 0; }"]
+        with open(os.path.join(wd, "drv.c"), "w") as f:
+            f.write("\n".join(drv) + "\n")
+        st, out, err = core.run_limited(["gcc", "-O0", "-o", "drv", "drv.c"] + [u[0] + ".o" for u in units], cwd=wd, timeout=900)
+        if st != 0:
+            raise core.HarnessError("C18 exec driver does not link: %s" % err[-800:])
+        st, out, err = core.run_limited([os.path.join(wd, "drv")], cwd=wd, timeout=300)
+        if st == "timeout":
+            acc.count("timeouts"); units = []
+        elif st != 0:
+            raise core.HarnessError("C18 exec driver failed: %s %s" % (st, err[-300:]))
+        for k, u in enumerate(units):
+            obs[u[1]] = []
+        for l in out.splitlines() if units else []:
+            w = l.split(" ", 3)
+            u = units[int(w[0])]
+            obs[u[1]].append((int(w[1]), int(w[2]), M.norm(w[3], u[2])))
+    for ci, enc, r, variants, dirs in prepared:
+        judge_L(acc, observable, fstr(unpack(cases[ci])[1]), enc, r, variants,
+                {vn: obs.get((ci, enc, vn)) for vn, _, _ in variants}, {vn: gcc.get((ci, enc, vn)) for vn, _, _ in variants}, sup)
+    shutil.rmtree(wd, ignore_errors=True)
+    return acc.result()
+
+
+def l_cases(nmin, nmax, alphabet, modes=(), want="macro"):
+    """family L forests: want = "macro": at least one #line with macro operands and no repeated inclusion; "rep": a repeated inclusion"""
+    out = []
+    for n in range(nmin, nmax + 1):
+        for f in lforests(n, 2, -1, tuple(alphabet), tuple(modes)):
+            if (want == "rep" and has_rep(f)) or (want == "macro" and has_macro_directive(f) and not has_rep(f)):
+                out.append((n, f))
+    return out
 
 
 # ---------------------------------------------------------------------------------------------------------------
@@ -1097,6 +1519,41 @@ def run(ctx):
     phase("Z: S comb", _shard_S, zcomb, 2, lambda wd, i, s: (ctx.chibicc, wd, i, s, []))
     phase("Z: X comb%s" % ("" if thorough else " (in the main file)"), _shard_X, [c for c in zcomb if thorough or c[1][5] == "main"], 2,
           lambda wd, i, s: (ctx.chibicc, wd, i, s, []))
+    # =========== family L: operands of #line spelled through macros; headers with #line inside included repeatedly ===========
+    lmac12 = l_cases(1, 2, LALPHA)
+    lmac3 = l_cases(3, 3, LALPHA if thorough else LRED)
+    phase("L: E n<=2 x full operand alphabet (5 number x 6 file sources) x %s" % ("{lf,crlf}x{bom,-}" if thorough else "{lf,crlf+bom}"), _shard_L, lmac12, 40,
+          lambda wd, i, s: (ctx.chibicc, wd, i, s, all4 if thorough else ["lf", "crlf+bom"], "E"))
+    phase("L: E n=3 x %s x lf" % ("full operand alphabet" if thorough else "reduced operand alphabet LRED"), _shard_L, lmac3, 100,
+          lambda wd, i, s: (ctx.chibicc, wd, i, s, ["lf"], "E"))
+    if thorough:
+        phase("L: E n=4 x operand alphabet LRED4 x lf", _shard_L, l_cases(4, 4, LRED4), 150, lambda wd, i, s: (ctx.chibicc, wd, i, s, ["lf"], "E"))
+    lx = lmac12 if thorough else l_cases(1, 1, LALPHA) + l_cases(2, 2, LRED)
+    phase("L: X %s x lf" % ("n<=2 x full operand alphabet" if thorough else "n=1 x full operand alphabet, n=2 x LRED"), _shard_L, lx, 16,
+          lambda wd, i, s: (ctx.chibicc, wd, i, s, ["lf"], "X"))
+    ls = lmac12 if thorough else l_cases(1, 2, LRED)
+    phase("L: S n<=2 x %s x lf" % ("full operand alphabet" if thorough else "LRED"), _shard_S, ls, 20, lambda wd, i, s: (ctx.chibicc, wd, i, s, ["lf"]))
+    phase("L: D n<=%d x lf x {lex,parse}" % (2 if thorough else 1), _shard_D, l_cases(1, 2 if thorough else 1, LALPHA if not thorough else LRED), 8,
+          lambda wd, i, s: (ctx.chibicc, wd, i, s, ["lf"], [], 2, ("lex", "parse"), ()))
+    rep12 = l_cases(1, 2, RALPHA, RMODES, "rep")
+    rmodes3 = RMODES if thorough else RMODES_Q3
+    rep3 = l_cases(3, 3, RALPHA, rmodes3, "rep")
+    phase("R: E n<=2 x %d inclusion modes x %s" % (len(RMODES), "{lf,crlf}x{bom,-}" if thorough else "{lf,crlf+bom}"), _shard_L, rep12, 10,
+          lambda wd, i, s: (ctx.chibicc, wd, i, s, all4 if thorough else ["lf", "crlf+bom"], "E"))
+    phase("R: E n=3 x %d inclusion modes x lf" % len(rmodes3), _shard_L, rep3, 60, lambda wd, i, s: (ctx.chibicc, wd, i, s, ["lf"], "E"))
+    if thorough:
+        phase("R: E n=4 x %d inclusion modes x lf" % len(RMODES_RED), _shard_L, l_cases(4, 4, RALPHA, RMODES_RED, "rep"), 120,
+              lambda wd, i, s: (ctx.chibicc, wd, i, s, ["lf"], "E"))
+    else:
+        phase("R: E n=4 x alphabet RALPHA3 x %d inclusion modes x lf" % len(RMODES_Q4), _shard_L, l_cases(4, 4, RALPHA3, RMODES_Q4, "rep"), 60,
+              lambda wd, i, s: (ctx.chibicc, wd, i, s, ["lf"], "E"))
+    phase("R: X n<=2 x %d inclusion modes, n=3 x %d inclusion modes x lf" % (len(RMODES), len(RMODES if thorough else RMODES_Q4)), _shard_L,
+          rep12 + (rep3 if thorough else l_cases(3, 3, RALPHA, RMODES_Q4, "rep")), 16 if not thorough else 60,
+          lambda wd, i, s: (ctx.chibicc, wd, i, s, ["lf"], "X"))
+    phase("R: S n<=%d x lf" % (3 if thorough else 2), _shard_S, rep12 + (rep3 if thorough else []), 10 if not thorough else 60,
+          lambda wd, i, s: (ctx.chibicc, wd, i, s, ["lf"]))
+    rkinds = ("lex", "parse") if thorough else ("parse",)
+    phase("R: D n<=2 x lf x {%s}" % ",".join(rkinds), _shard_D, rep12, 4, lambda wd, i, s: (ctx.chibicc, wd, i, s, ["lf"], [], 2, rkinds, ()))
     if os.environ.get("VERIF_C18_TIMING"):
         sys.stderr.write("\n".join(timing) + "\n")
 
@@ -1109,6 +1566,13 @@ def run(ctx):
               size_family={"buffer_sizes": list(ZSIZES), "comb_period": ZPERIOD, "comb_file_bytes": ZTOTAL, "shifts": list(ZSHIFTS),
                            "utf8_second_byte_shifts": list(ZU8SHIFTS), "features": {k: list(v) for k, v in ZFEATURES.items()},
                            "placements": ["main file", "included header"]},
+              line_operand_family={"number_operand_sources": LNUMSRC, "file_operand_sources": LFILESRC, "alphabet": LALPHA + ["inc[...]"],
+                                   "reduced_alphabets": {"LRED": LRED, "LRED4": LRED4},
+                                   "judged_by": "equality with the literal-operand twin of the same file set + the model where unambiguous"},
+              repeated_inclusion_family={"modes": ["%s:%s" % m for m in RMODES], "modes_quick_n3": ["%s:%s" % m for m in RMODES_Q3],
+                                         "modes_quick_n4": ["%s:%s" % m for m in RMODES_Q4], "modes_thorough_n4": ["%s:%s" % m for m in RMODES_RED],
+                                         "alphabet": RALPHA + ["inc[...]", "rep:<mode>[...]"], "alphabet_n4_quick": RALPHA3,
+                                         "judged_by": "every occurrence of a probe == its first occurrence, + the model, + the literal twin"},
               construct_observable_encoding_classes=len(kinds),
               skipped_undefined=totals.get("skipped_unspecified", 0), oracle_disagreements=totals.get("oracle_disagreements", 0),
               rule="case = (forest of line items, encoding, observable, probe); evaluations = probes judged (observed position compared with "
@@ -1118,7 +1582,11 @@ def run(ctx):
                    "continuation text at columns 0,1,2,4,8; splice inside the probe), M (__LINE__/__FILE__ in replacement lists of object-like and "
                    "function-like macros, invocations over 1-4 lines, nested in arguments to depth 2 and through replacement lists), "
                    "Z (files and included headers up to 2*65536+1024 bytes with CR / LF / backslash / middle of a splice / middle of a UTF-8 "
-                   "character at k*B-1, k*B, k*B+1 for every multiple of B in {512,1024,4096,8192,65536}, LF and CRLF)",
+                   "character at k*B-1, k*B, k*B+1 for every multiple of B in {512,1024,4096,8192,65536}, LF and CRLF), "
+                   "L (#line whose number / file operand is a literal, an object-like macro from the same file / an included header / the command "
+                   "line, or __LINE__ / __FILE__: 5 x 6 spellings; each file set also rendered as its literal-operand twin and chibicc compared "
+                   "with itself on the two), R (headers containing #line at every position included 2-3 times by the same file or through "
+                   "wrapper headers, without guard / with #ifndef guard / with #pragma once: every inclusion must report the positions of the first)",
               **{k: v for k, v in totals.items() if k not in ("skipped_unspecified", "oracle_disagreements")})
     if ctx.exhaustive:
         if totals.get("judged_E", 0) < 5000 or totals.get("judged_D", 0) < 2000 or totals.get("judged_S", 0) < 2000 or totals.get("judged_X", 0) < 500:
@@ -1129,7 +1597,10 @@ def run(ctx):
         for k, least in (("judged_E_splice_after_ucn", 5000), ("judged_D_splice_after_ucn", 300), ("judged_S_splice_after_ucn", 200),
                          ("judged_X_splice_after_ucn", 50), ("judged_E_body_of_multiline_invocation", 1500),
                          ("judged_X_body_of_multiline_invocation", 80), ("judged_E_long_file", 20000), ("judged_D_long_file", 800),
-                         ("judged_S_long_file", 20000), ("judged_X_long_file", 10000)):
+                         ("judged_S_long_file", 20000), ("judged_X_long_file", 10000),
+                         ("judged_E_after_macro_operand_#line", 8000), ("judged_X_after_macro_operand_#line", 300),
+                         ("judged_E_repeated_inclusion", 4000), ("judged_E_repeated_inclusion_after_#line", 2000),
+                         ("judged_X_repeated_inclusion", 500)):
             if totals.get(k, 0) < least:
                 raise core.HarnessError("vacuous: %s = %d (< %d)" % (k, totals.get(k, 0), least))
         seen = set(k[0] for k in kinds)
@@ -1148,6 +1619,13 @@ def run(ctx):
         r = render(f, "E", var=v)
         ctx.sample({"forest": fstr(f, v), "files": {k: "\n".join(x) for k, x in r.files.items()},
                     "expected": [(p, i["presfile"], i["pres"]) for p, i in M.expected(encode_all(r, "lf"))]})
+    for f in (("dL-", "dHB", "sp2"), (("rep", ("code", "dBL"), ("dw", "none")), "dLL")):
+        r = render(f, "E")
+        e, dl = M.expected_ex(encode_all(r, "lf"), predef=LPREDEF)
+        tw = twin_lines(r, dl)
+        ctx.sample({"forest": fstr(f), "command_line": LDEFS, "files": {k: "\n".join(v) for k, v in r.files.items()},
+                    "literal_twin_differs_in": {k: [l for l, m in zip(v, r.files[k]) if l != m] for k, v in (tw or {}).items() if v != r.files[k]},
+                    "expected": [(p, i["presfile"], i["pres"]) for p, i in e]})
     zs = ("Z", "single", "cr", -1, "crlf", "header", 4096, 1)
     zr = render(zs, "E")
     ctx.sample({"long_file": fstr(zs), "sizes": {k: len(x) for k, x in zr.raw.items()}, "bytes_4094_4098_of_h1.h": repr(zr.raw["h1.h"][4094:4098]),
@@ -1157,6 +1635,10 @@ def run(ctx):
     ctx.assume("__LINE__ in a replacement list is judged only where the model (line of the macro name of the outermost invocation written in a "
                "source file) and gcc -E agree; diagnostics and .loc records of tokens from replacement lists are not judged")
     ctx.assume("directives are not generated inside macro arguments (undefined, C11 6.10.3p11)")
+    ctx.assume("`# N \"f\"` (GNU linemarker form) is generated with literal operands only: gcc does not macro-replace it and C11 6.10p1 leaves "
+               "`# non-directive` undefined; function-like macros and # / ## are not used in #line operands")
+    ctx.assume("the line number after `#line __LINE__` is not judged against the model (N, N+1 and an ignored directive coincide), and not against "
+               "the literal twin when another #line is in force at the directive (the operand then carries that directive's N+1); __FILE__ is judged")
     ctx.assume("lone CR line ends are not generated (the property promises LF and CR LF only)")
     ctx.assume("__LINE__ inside the arguments of a multi-line macro invocation is judged only where the model (own physical line) and gcc -E agree")
     ctx.assume("diagnostics and .loc records may use either the physical or the presumed (file, line) pair; wording of diagnostics is not read")
